@@ -54,6 +54,7 @@ SOLUTIONS = ("exp", "sinpoly", "lorentz")
 COEFFS = ("const", "callable", "mixed")
 
 
+CASE_CPU_LIMIT = 120.0
 HALF, PM1 = (0.15, 2.0), (-0.6, 0.55)
 # name -> (class name or None, constructor parameters, wrapped in InverseRTransform?, interval in the ORIGINAL variable,
 #          thorough-only?)
@@ -63,7 +64,7 @@ SPEC = {
     "inv-becke": ("BeckeRTransform", {"rmin": 0.0, "R": 1.3}, True, HALF, False),
     "inv-knowles-k2": ("KnowlesRTransform", {"rmin": 0.0, "R": 1.7, "k": 2}, True, HALF, False),
     "inv-knowles-k3": ("KnowlesRTransform", {"rmin": 0.0, "R": 1.7, "k": 3}, True, HALF, False),
-    "inv-handy-m2": ("HandyRTransform", {"rmin": 0.0, "R": 1.1, "m": 2}, True, HALF, False),
+    "inv-handy-m2": ("HandyRTransform", {"rmin": 0.0, "R": 1.1, "m": 2}, True, HALF, True),
     "inv-handymod-m3": ("HandyModRTransform", {"rmin": 0.0, "rmax": 12.0, "m": 3}, True, HALF, False),
     "inv-multiexp": ("MultiExpRTransform", {"rmin": 0.0, "R": 1.5}, True, HALF, False),
     "inv-linearfinite": ("LinearFiniteRTransform", {"rmin": 0.0, "rmax": 3.0}, True, HALF, False),
@@ -81,9 +82,10 @@ SPEC = {
     "becke": ("BeckeRTransform", {"rmin": 0.1, "R": 1.2}, False, PM1, False),
     "linearfinite": ("LinearFiniteRTransform", {"rmin": 0.5, "rmax": 4.0}, False, PM1, False),
     "knowles-k3": ("KnowlesRTransform", {"rmin": 0.0, "R": 1.4, "k": 3}, False, PM1, False),
-    "handy-m2": ("HandyRTransform", {"rmin": 0.1, "R": 0.9, "m": 2}, False, PM1, False),
+    "handy-m2": ("HandyRTransform", {"rmin": 0.1, "R": 0.9, "m": 2}, False, PM1, True),
     "handymod-m3": ("HandyModRTransform", {"rmin": 0.0, "rmax": 11.0, "m": 3}, False, PM1, False),
     "multiexp": ("MultiExpRTransform", {"rmin": 0.0, "R": 1.3}, False, PM1, False),
+    # (quick tier: m = 3 for Handy, the value m = 2 used by the repository's tests hides wrong terms: seed C15-D)
     # thorough tier: more integer and non-integer k / m (terms of the hand-derived derivative formulas that
     # vanish at k = m = 2 must show)
     "inv-knowles-k1": ("KnowlesRTransform", {"rmin": 0.0, "R": 1.7, "k": 1}, True, HALF, True),
@@ -91,14 +93,14 @@ SPEC = {
     "inv-knowles-k4": ("KnowlesRTransform", {"rmin": 0.0, "R": 2.2, "k": 4}, True, HALF, True),
     "inv-handy-m1": ("HandyRTransform", {"rmin": 0.0, "R": 1.1, "m": 1}, True, HALF, True),
     "inv-handy-m1.5": ("HandyRTransform", {"rmin": 0.0, "R": 1.1, "m": 1.5}, True, HALF, True),
-    "inv-handy-m3": ("HandyRTransform", {"rmin": 0.0, "R": 1.1, "m": 3}, True, HALF, True),
+    "inv-handy-m3": ("HandyRTransform", {"rmin": 0.0, "R": 1.1, "m": 3}, True, HALF, False),
     "inv-handymod-m1": ("HandyModRTransform", {"rmin": 0.0, "rmax": 6.0, "m": 1}, True, HALF, True),
     "inv-handymod-m2": ("HandyModRTransform", {"rmin": 0.0, "rmax": 9.0, "m": 2}, True, HALF, True),
     "inv-handymod-m4": ("HandyModRTransform", {"rmin": 0.0, "rmax": 25.0, "m": 4}, True, HALF, True),
     "knowles-k2.5": ("KnowlesRTransform", {"rmin": 0.1, "R": 1.4, "k": 2.5}, False, PM1, True),
     "knowles-k4": ("KnowlesRTransform", {"rmin": 0.0, "R": 1.4, "k": 4}, False, PM1, True),
     "handy-m1.5": ("HandyRTransform", {"rmin": 0.1, "R": 0.9, "m": 1.5}, False, PM1, True),
-    "handy-m3": ("HandyRTransform", {"rmin": 0.1, "R": 0.9, "m": 3}, False, PM1, True),
+    "handy-m3": ("HandyRTransform", {"rmin": 0.1, "R": 0.9, "m": 3}, False, PM1, False),
     "handymod-m2": ("HandyModRTransform", {"rmin": 0.0, "rmax": 8.0, "m": 2}, False, PM1, True),
     "handymod-m4": ("HandyModRTransform", {"rmin": 0.1, "rmax": 24.0, "m": 4}, False, PM1, True),
     "becke-rmin0": ("BeckeRTransform", {"rmin": 0.0, "R": 5.0}, False, PM1, True),
@@ -323,7 +325,7 @@ def jobs_for(ctx):
                         continue
                     out.append((order, cname, sname, tname, "ivp", (method, no_der), ctx.seed))
             # whole-number initial data passed as Python ints / integer ndarray / float ndarray
-            if sname == "exp" and cname in ("const", "callable") and (ctx.thorough or tname in ("none", "inv-becke", "inv-knowles-k3", "becke", "handy-m2")):
+            if sname == "exp" and cname in ("const", "callable") and (ctx.thorough or tname in ("none", "inv-becke", "inv-knowles-k3", "becke", "handy-m3")):
                 for form in ("int-list", "int-array", "float-array"):
                     out.append((order, cname, "polyint", tname, "ivp", ("DOP853", False, form), ctx.seed))
             # BVP
@@ -344,7 +346,8 @@ def jobs_for(ctx):
 
 def run(ctx):
     jobs = jobs_for(ctx)
-    for res in lattice.pmap(_solve_case, jobs, ctx.workers, chunksize=4):
+    # one solve takes at most a few seconds of CPU time on the unchanged tree
+    for res in lattice.pmap(_solve_case, jobs, ctx.workers, chunksize=4, limit=CASE_CPU_LIMIT):
         if len(ctx.samples) > 8:
             res["samples"] = []
         ctx.merge(res)
